@@ -360,6 +360,23 @@ func genHistory(seed int64, idx int, thorough bool) *History {
 			}
 		}
 		h.DropProfile = (idx/2)%2 == 0
+		if h.DropProfile {
+			// the restart that has only the database to go by: every field a profile listener
+			// can carry is present at least once, not left to chance
+			l := genHTTP(r, "prof-http-full", slot, true)
+			slot++
+			l.Headers = append(l.Headers, "X-Full: 1")
+			l.Uris = append(l.Uris, "/full")
+			l.PortConn = "8443"
+			l.Response = []string{"Server: nginx"}
+			l.KillDate = "2033-04-05 06:07:08"
+			l.WorkingHours = "09:30-18:45"
+			l.Method = "POST"
+			h.Lst = append(h.Lst, l)
+			h.Lst = append(h.Lst, LstSpec{Kind: "smb", Name: "prof-smb-full", Profile: true, PipeName: "pipe_" + randHex(r, 3),
+				KillDate: "2031-02-03 04:05:06", WorkingHours: "8:00-17:00"})
+			h.Lst = append(h.Lst, LstSpec{Kind: "ext", Name: "prof-ext-full", Profile: true, Endpoint: "ep" + randHex(r, 3)})
+		}
 	}
 	// operator-added listeners available to the ops
 	nl := 2 + r.Intn(3)
